@@ -641,6 +641,72 @@ def check_dict_keeps_valid_parts(ctx, spec, d, defect, case):
             return
 
 
+def _signature(o):
+    from checks.c01_xml import no_ids
+    kind_, exc, doc, calls = o
+    if kind_ == "raised":
+        return "raised:" + type(exc).__name__
+    if kind_ == "doc":
+        try:
+            m = model.model_of(doc)
+            for _, n in model.walk(m):
+                if n.get("name") is not None and n.get("name") == n.get("id"):
+                    n["name"] = "<its id>"      # a replaced / generated id is random; so is a name defaulting to it
+            return "doc:" + core.h(enc(no_ids(m)))
+        except Exception as e:
+            return "doc:unmodelled:" + type(e).__name__
+    return kind_
+
+
+def run_reader_reuse(ctx, case, sdir):
+    """One ODMLReader instance reads a sequence of good and defective inputs through both entry points: what it returns
+    (or raises) for an input must not depend on what it read before, i.e. equal the outcome of a fresh reader."""
+    from odml.tools.odmlparser import ODMLReader
+    rec = ctx.rec
+    spec = dec(case["spec"])
+    rng = random.Random("reuse|%s" % case.get("i"))
+    texts = {}
+    if case["family"] == "xml-one-defect":
+        texts["XML"] = (emit.xml_from_model(spec).split("?>", 1)[1], case["text"])
+    else:
+        good, bad = emit.dict_from_model(spec), dec(case["dict"])
+        try:
+            texts["JSON"] = (json.dumps(good), json.dumps(bad))
+            texts["YAML"] = (yaml.safe_dump(good), yaml.safe_dump(bad))
+        except Exception:
+            pass
+    for fmt, (good, bad) in texts.items():
+        paths = {}
+        for which, text in (("good", good), ("bad", bad)):
+            paths[which] = os.path.join(sdir, "c16reuse_%s.%s" % (which, fmt.lower()))
+            with io.open(paths[which], "w", encoding="utf-8") as f:
+                f.write(text)
+        steps = [("from_string", "good"), ("from_file", "bad"), ("from_string", "bad"), ("from_file", "good")]
+        rng.shuffle(steps)
+        steps = steps + [steps[0]]
+
+        def do(reader, entry, which):
+            if entry == "from_string":
+                return call(lambda: reader.from_string(good if which == "good" else bad))
+            return call(lambda: reader.from_file(paths[which]))
+        reader = ODMLReader(fmt, show_warnings=False)
+        hist = []
+        for entry, which in steps:
+            rec.monitor("reader-instance-reuse")
+            rec.evaluation()
+            got = _signature(do(reader, entry, which))
+            fresh = _signature(do(ODMLReader(fmt, show_warnings=False), entry, which))
+            if got != fresh:
+                rec.violation("odmlreader-%s.%s/instance-reuse/outcome-depends-on-earlier-calls:%s-instead-of-%s" % (
+                    fmt.lower(), entry, got.split(":")[0] + (":" + got.split(":")[1] if got.startswith("raised") else ""),
+                    fresh.split(":")[0] + (":" + fresh.split(":")[1] if fresh.startswith("raised") else "")),
+                    "%s input via %s after %r: %s, a fresh reader: %s" % (which, entry, hist, got, fresh),
+                    dict(case, reuse=True))
+                break
+            hist.append("%s(%s)" % (entry, which))
+        rec.count("reader-reuse", fmt)
+
+
 def valid_files(rng):
     spec = gen.gen_doc(rng, max_nodes=8, hostile=0.3, tuples=False)
     m = spec
@@ -657,9 +723,11 @@ def run_case(case, ctx, sdir):
         elif fam == "xml-one-defect":
             run_xml(ctx, case["text"], case, sdir)
             check_keeps_valid_parts(ctx, dec(case["spec"]), case["text"], case["defect"], case)
+            run_reader_reuse(ctx, case, sdir)
         elif fam == "dict-one-defect":
             run_dict(ctx, dec(case["dict"]), case, sdir)
             check_dict_keeps_valid_parts(ctx, dec(case["spec"]), dec(case["dict"]), case["defect"], case)
+            run_reader_reuse(ctx, case, sdir)
         elif fam in ("xml-grammar", "xml-mutation", "xml-own-file"):
             run_xml(ctx, case["text"], case, sdir)
         else:
